@@ -395,17 +395,21 @@ def pairs_unify(an, rep, features="default"):
                 continue
             wk = _writer_kinds(ev)
             cands = [(rk, rev, rp) for rk, rev, rp in rnorm if rk == wk]
-            good = None
+            goods = []
             why = "no reader path reads %s (reader paths: %s)" % (wk, sorted({repr(r[0]) for r in rnorm}))
             for rk, rev, rp in cands:
-                okc, why = _consistent(ev, rev, rp)
+                okc, why2 = _consistent(ev, rev, rp)
                 if okc:
-                    good = (rk, rev, rp)
-                    break
-            if not R.check(good is not None, "<%s>" % s, "writer path %s" % _short_kinds(wk), why, mir.loc(wb, 0),
+                    goods.append((rk, rev, rp))
+                else:
+                    why = why2
+            if not R.check(bool(goods), "<%s>" % s, "writer path %s" % _short_kinds(wk), why, mir.loc(wb, 0),
                            sample={"type": s, "unified": _short_kinds(wk)}):
                 continue
-            _check_labels(R, s, ev, good[1], good[2], rb)
+            # every reader path that is consistent with what the writer emitted (they differ only by tests on data
+            # values, which the writer does not fix) must route the binders into the labelled constructor slots
+            for g in goods:
+                _check_labels(R, s, ev, g[1], g[2], rb)
         # G7: exhaustiveness of value dispatch in the reader
         for p in walk.walk(rb, core, inline):
             for a in p.atoms():
@@ -569,18 +573,31 @@ def _check_labels(R, s, wev, rev, rp, rb):
     if not slots:
         return
     seen = {}
+    pseudo = []
     for c in rp.calls():
+        pseudo.append((c[2], c[3], c[5]))
+        # function items passed as values: x.map(F) / x.and_then(F) / x.map_err(..)  ==  F(x)
+        if c[2].split("::")[-1] in ("map", "and_then") and len(c[5]) > 1 and strip_refs(c[5][1])[0] == "fn":
+            f = strip_refs(c[5][1])
+            base = mir.callee_info(f[2])["base_key"] if len(f) > 2 and isinstance(f[2], dict) else f[1]
+            pseudo.append((f[1], base, [c[5][0]]))
+    for k2, k3, cargs in pseudo:
         for (key, pos), lab in CTOR_LABEL.items():
-            if (c[2] == key or c[3] == key) and pos < len(c[5]):
+            if (k2 == key or k3 == key) and pos < len(cargs):
                 for lab2, site in slots:
-                    if _binder_of(c[5][pos], site):
+                    if _binder_of(cargs[pos], site):
                         seen.setdefault(site, set()).add(lab)
-    # function items passed as values (e.g. and_then(Weekday::from_i8))
+    known_labels = set(CTOR_LABEL.values())
     for lab, site in slots:
         got = seen.get(site, set())
+        head = lab.split("<")[0]
         if not got:
-            continue        # no labelled constructor takes this binder (e.g. nested codec result passed through): not checkable
-        R.check(lab.split("<")[0] in got, "<%s>" % s, "slot label " + lab, "the value written as `%s` is read back into the constructor "
+            # a slot whose label has constructor positions must reach one of them (else the value written as `lab` is
+            # rebuilt through an unlabelled route: fail closed, naming the slot)
+            R.check(head not in known_labels, "<%s>" % s, "slot label " + lab, "the value written as `%s` does not reach any "
+                    "constructor argument labelled `%s` on the reader side" % (lab, head), mir.loc(rb, 0))
+            continue
+        R.check(head in got, "<%s>" % s, "slot label " + lab, "the value written as `%s` is read back into the constructor "
                 "argument labelled %s" % (lab, sorted(got)), mir.loc(rb, 0), sample={"type": s, "slot": lab, "reaches": sorted(got)})
 
 
